@@ -174,6 +174,8 @@ class VHDX(AlignedStream):
     def _read(self, offset: int, length: int) -> bytes:
         sector = offset // self.sector_size
         count = (length + self.sector_size - 1) // self.sector_size
+        # The last aligned read of the stream may extend past the end of the disk, don't read beyond it
+        count = min(count, (self.size + self.sector_size - 1) // self.sector_size - sector)
 
         return self.read_sectors(sector, count)
 
